@@ -7,3 +7,7 @@ import FontcProps.C09
 import FontcProps.C13
 import FontcProps.C03
 import FontcProps.C04
+import FontcProps.C08
+import FontcProps.C10
+import FontcProps.C16
+import FontcProps.C18
